@@ -145,6 +145,9 @@ func IsSym(x any) bool { return false }
 
 // Freeze marks everything reachable from x read-only (engine only).
 func Freeze(x any) {}
+
+// FreezeExcept is Freeze that does not descend into the objects listed in except.
+func FreezeExcept(x any, except ...any) {}
 func Thaw()        {}
 
 // EagerIterator is the engine's model of go-intervals' mapperToIterator (a
